@@ -6,4 +6,4 @@ import (
 	"verif/internal/harness"
 )
 
-func TestProps(t *testing.T) { harness.Main(t, "C04", Encode, EncodeHuge, Decode, JSONMsg) }
+func TestProps(t *testing.T) { harness.Main(t, "C04", Encode, EncodeHuge, Decode, Reuse, JSONMsg) }
